@@ -3,7 +3,7 @@ import json
 
 import vlib
 
-RULE = ("TLC explores all behaviours of <= 4 (quick) / 5 (thorough) steps of the Signing state machine (sign by 2 entities x 2 key "
+RULE = ("TLC explores all behaviours of <= 4 (quick) / 7 (thorough) steps of the Signing state machine (sign by 2 entities x 2 key "
         "pairs, tamper payload, tamper/remove `unsigned`, flip a signature bit, drop a signature, add an unknown-algorithm "
         "signature, corrupt `signatures` or one entity entry, empty `signatures`), checks SignThenVerify / Soundness / KeepsOthers / "
         "UnsignedIrrelevant in every state, and emits from every reachable state every sign_json call (expected result and "
@@ -14,7 +14,7 @@ RULE = ("TLC explores all behaviours of <= 4 (quick) / 5 (thorough) steps of the
 
 def run(rep, tier):
     thorough = tier == "thorough"
-    cases, _ = vlib.model_check(rep, "C02", "MC_C02", cfg="MC_C02_d5.cfg" if thorough else "MC_C02_d4.cfg")
+    cases, _ = vlib.model_check(rep, "C02", "MC_C02", cfg="MC_C02_d7.cfg" if thorough else "MC_C02_d4.cfg")
     obs = vlib.replay_cases("C02", cases, ["replay", "c02"])
     nontriv = 0
     for c, o in zip(cases, obs):
